@@ -1148,7 +1148,7 @@ func c05gen(g *gen, tier string, w *bufio.Writer) {
 			}
 			g.shuffle(ws)
 			for try := 0; try < 20; try++ {
-				if s, ok := g.c05schedule(b, ws, false); ok {
+				if s, ok := g.c05schedule(b, ws, true); ok {
 					fmt.Fprintf(w, "sched %s %s %s\n", b, strings.Join(ws, ";"), s)
 					break
 				}
